@@ -5,7 +5,7 @@ import common
 
 PROPS = "RotoV.Props.C02"
 MODULES = ["RotoV.Lemmas.Layout", "RotoV.Lemmas.LayoutPath", "RotoV.Lemmas.LayoutClone", "RotoV.Lemmas.LayoutEq", "RotoV.Lemmas.LayoutTotal", "RotoV.Lemmas.LayoutDrop", "RotoV.Lemmas.LayoutRead", "RotoV.Lemmas.LayoutWrite", "RotoV.Lemmas.LayoutListEq", "RotoV.Model.LayoutListEq", "RotoV.Model.LayoutListStd", "RotoV.Model.LayoutMem", "RotoV.Model.Layout", "RotoV.Model.LayoutOps",
-           "RotoV.Model.LayoutStd", "RotoV.Model.LayoutKind", "RotoV.Model.ValueSpec"]
+           "RotoV.Model.LayoutStd", "RotoV.Model.LayoutKind", "RotoV.Model.ValueSpec", "RotoV.Model.ValueCtor", "RotoV.Lemmas.ValueCtor"]
 
 
 def search(ctx):
@@ -29,10 +29,18 @@ def run(ctx):
             h = rep.get("histograms", {}).get("equal_values_compared_as_list_elements_bytes", {})
             ctx.obligation("reach:equal-values-with-other-bytes", h.get("differ", 0) >= 20,
                            f"measured pairs: {h} (the painted stack no longer reaches the bytes outside the values)")
+        if rep is not None and not any((v.get("input") or {}).get("kind") == "ctor" for v in rep.get("impl_violations", []) + rep.get("model_mismatches", [])):
+            # the constructor phase must have RUN: the real lowerer's MIR of the representatives and of the
+            # generated programs of the source core was executed by the Lean MIR semantics against `eval`
+            h = rep.get("histograms", {}).get("ctor_lowering_shape", {})
+            n = sum(h.values())
+            ctx.obligation("reach:constructor-mir-validated", n >= 500,
+                           f"{n} constructor programs validated ({h}); the phase did not run or lost its cases")
     ctx.trusted += [
         "usize is modelled as Nat: no wrap-around in layout arithmetic (sizes of real types are far below 2^64)",
         "leaf layouts (primitives, String, List, registered types) are whatever the runtime reports; theorems assume only that they pass Layout::new's asserts",
         "modelled, not verified: the memory operations themselves (Cranelift loads/stores/memcpy, the registered clone/drop/eq functions)",
+        "T8 (constructors hold their values) is about the hand transliteration `Model/ValueCtor.lower` of Lowerer::record/binop/assign/block and the executed meaning of MIR assignments given there; the real lowerer's MIR is run against the spec per generated program (and compared instruction for instruction, measured), not proved equal for all programs",
     ]
     return ctx.finish(
         level="proof",
